@@ -86,9 +86,9 @@ Proof. exact new_error_limit_zero. Qed.
 Print Assumptions C19_trace_limit_zero.
 
 (* otto as it is prints exactly the property's trace for every program shape
-   (any nesting, any history of earlier calls in each frame, any limit) that
-   stays clear of the listed deviations and whose call sites and raise are
-   where the generator says they are *)
+   (any nesting, any history of earlier calls and of entered and completed
+   direct evals in each frame, any limit) that stays clear of the listed
+   deviations and whose call sites and raise are where the generator says they are *)
 Theorem C19_trace_guarded : forall files limit levels r,
   Forall (level_plain nofix) levels ->
   Forall (site_ok file_position_off files) levels ->
@@ -97,7 +97,7 @@ Theorem C19_trace_guarded : forall files limit levels r,
 Proof. exact trace_guarded. Qed.
 Print Assumptions C19_trace_guarded.
 
-(* ... and the listed deviations are the only ones: with all six repaired the
+(* ... and the listed deviations are the only ones: with all five repaired the
    model prints the property's trace for every program shape *)
 Theorem C19_trace_repaired : forall files limit levels r,
   Forall (fun lv => lv_is_native (fst lv) = true -> snd lv = []) levels ->
@@ -120,8 +120,9 @@ Theorem C19_sites_from_lines : forall files f nm lines idx line col,
 Proof. exact lookup_from_lines. Qed.
 Print Assumptions C19_sites_from_lines.
 
-(* class chosen at each raise site = ES5 class, for every kind id but the two listed *)
-Theorem C19_error_class_table : forall kind, kind <> 20 -> kind <> 26 ->
+(* class chosen at each raise site = ES5 class, for every kind id but the one listed
+   (a malformed RegExp pattern, kind 26, is a SyntaxError since ef38bfe) *)
+Theorem C19_error_class_table : forall kind, kind <> 20 ->
   model_class kind = spec_class kind.
 Proof. exact class_table. Qed.
 Print Assumptions C19_error_class_table.
@@ -176,10 +177,6 @@ Theorem C19_parsethrow_class_refuted : exists k, model_class k <> spec_class k.
 Proof. exists 20. vm_compute. discriminate. Qed.
 Print Assumptions C19_parsethrow_class_refuted.
 
-Theorem C19_regexp_class_refuted : model_class 26 <> spec_class 26.
-Proof. vm_compute. discriminate. Qed.
-Print Assumptions C19_regexp_class_refuted.
-
 Theorem C19_array_length_message_refuted : exists k, model_msg_nonempty k <> spec_msg_nonempty k.
 Proof. exists 12. vm_compute. discriminate. Qed.
 Print Assumptions C19_array_length_message_refuted.
@@ -199,17 +196,22 @@ Theorem C19_byte_columns_refuted : file_position_off w_src2 9 <> es5_position w_
 Proof. vm_compute. discriminate. Qed.
 Print Assumptions C19_byte_columns_refuted.
 
-(* function f1(){ eval("1"); f2() } : f1's later call site is looked up in the eval text *)
+(* function f1(){ eval("1"); f2() } *)
 Definition w_files3 : file_table := [(0, [102; 49; 40; 41; 59; 32; 101; 118; 97; 108; 40; 34; 49; 34; 41; 59; 32; 102; 50; 40; 41; 10]); (0, [49])].
 Definition w_levels3 : list level :=
   [(LvGlobal 0, [EvCall KIdent 1 1 1]);
    (LvFunc 1 0, [EvCall KIdent 7 1 7; EvEvalEnter 1; EvEvalLeave; EvCall KIdent 18 1 18]);
    (LvFunc 2 0, [])].
-Theorem C19_eval_stale_file_refuted :
+(* since 744b40b the frame gets its file back: the call site after the completed eval is found *)
+Theorem C19_direct_eval_restores_file : forall fx k evs f,
+  run_events fx k (evs ++ [EvEvalEnter f; EvEvalLeave]) = run_events fx k evs.
+Proof. exact direct_eval_restores_file. Qed.
+Print Assumptions C19_direct_eval_restores_file.
+
+Example C19_direct_eval_witness :
   model_trace nofix file_position_off w_files3 10 w_levels3 (RAt KIdent 3 1 3)
-  <> spec_trace w_files3 10 w_levels3 (RAt KIdent 3 1 3).
-Proof. vm_compute. discriminate. Qed.
-Print Assumptions C19_eval_stale_file_refuted.
+  = spec_trace w_files3 10 w_levels3 (RAt KIdent 3 1 3).
+Proof. vm_compute. reflexivity. Qed.
 
 Theorem C19_raise_without_position_refuted :
   model_trace nofix file_position_off w_files3 10 [(LvGlobal 0, [EvCall KIdent 1 1 1])] (RNoAt 18 1 18)
@@ -227,9 +229,15 @@ Theorem C19_uncaught_text_stale_refuted : exists t, uncaught_text t <> spec_text
 Proof. exists (ThError [84] [120] (Some [84]) (Some [121])). vm_compute. discriminate. Qed.
 Print Assumptions C19_uncaught_text_stale_refuted.
 
-Theorem C19_fileset_position_refuted : fileset_position [[97; 98]] 1 <> Some (0, 1, 1).
-Proof. vm_compute. discriminate. Qed.
-Print Assumptions C19_fileset_position_refuted.
+(* since 6df0226 FileSet.Position is File.Position of the file that holds the index *)
+Theorem C19_fileset_position_inverse : forall lines line col,
+  lines_ok lines -> in_text lines line col ->
+  fileset_position [join_lines lines] (1 + offset_of lines line col) = Some (0, line, col).
+Proof. exact fileset_position_inverse. Qed.
+Print Assumptions C19_fileset_position_inverse.
+
+Example C19_fileset_witness : fileset_position [[97; 98]] 1 = Some (0, 1, 1).
+Proof. reflexivity. Qed.
 
 (* non-vacuity: the hypotheses of the guarded theorems are met by concrete programs *)
 Example C19_inverse_hyp_met :
